@@ -127,8 +127,66 @@ def slice(ctx: fw.Ctx) -> fw.Outcome:
                                       {"op": "threads", "plan": plan, "cases": [list(c) for c in cases]}, observed=q_, promised=p_)
     finally:
         sys.setswitchinterval(old)
+    paths(ctx, out, cases)
     wrapped(ctx, out)
     return out
+
+
+PATH_FRESH = r"""
+import sys, json
+sys.path.insert(0, sys.argv[1]); sys.path.insert(0, sys.argv[2])
+from pathlib import Path
+from verif import impl
+from chartparse.chart import Chart
+path, want = json.load(sys.stdin)
+impl.install_capture()
+try:
+    c = Chart.from_filepath(Path(path), want_tracks=impl.want_arg(want))
+    print(json.dumps(impl.dump_chart(c, [])))
+except Exception as e:
+    print(json.dumps(impl.err_name(e)))
+"""
+
+
+def paths(ctx, out, cases):
+    """the same files read by path several times in one process with different selections (and after a rewrite of the file),
+    each compared with a fresh-interpreter read of the same (file, selection)"""
+    import tempfile
+    from pathlib import Path
+
+    from chartparse.chart import Chart
+
+    rng = ctx.sub("paths")
+    impl.install_capture()
+    with tempfile.TemporaryDirectory() as td:
+        files = []
+        for k in range(3):
+            text = next(t for t, w in cases[rng.randrange(len(cases)):] + cases if not impl.run_chart(t).startswith("E ") and "|T " in impl.run_chart(t))
+            p = Path(td) / f"f{k}.chart"
+            p.write_text(text, encoding="utf-8")
+            present = sorted(gen.parse_dump(impl.run_chart(text))["tracks"].keys())
+            files.append((p, present))
+        plan = []
+        for _ in range(ctx.n(12, 120)):
+            p, present = rng.choice(files)
+            want = rng.choice([None, [], present[:1], present[1:], [list(k) for k in present], [[rng.randrange(10), rng.randrange(4)]]])
+            plan.append((p, None if want is None else [tuple(k) for k in want]))
+        for pos, (p, want) in enumerate(plan):
+            try:
+                c = Chart.from_filepath(p, want_tracks=impl.want_arg(want))
+                x = impl.dump_chart(c, [])
+            except Exception as e:  # noqa: BLE001
+                x = impl.err_name(e)
+            pr = subprocess.run(["/venv/bin/python", "-c", PATH_FRESH, str(fw.REPO), str(fw.ROOT)], input=json.dumps([str(p), want]).encode(),
+                                stdout=subprocess.PIPE, stderr=subprocess.PIPE, timeout=120)
+            ref = json.loads(pr.stdout.decode().strip().splitlines()[-1])
+            out.case(fw.h(["path", pos, str(p.name), want]), pos >= 1, None, tags=["path-history"])
+            if x != ref:
+                p_, q_ = fw.first_diff(ref, x)
+                out.violation("path-" + fw.h([pos, p.name, want]), f"Chart.from_filepath({p.name}, want_tracks={want}) at position {pos} of a history differs from a fresh-interpreter "
+                              f"read of the same file and selection: {p_[:100]!r} vs {q_[:100]!r}",
+                              {"op": "path-history", "text": p.read_text(encoding='utf-8'), "plan": [[w] for _, w in plan[: pos + 1]]}, observed=q_, promised=p_)
+                break
 
 
 def wrapped(ctx, out):
